@@ -9,14 +9,15 @@ Local Open Scope string_scope.
 Definition no_dot (s : string) : bool := match split_dot s with None => true | Some _ => false end.
 
 (* leaf literals whose emitted expression is right: the literal has exactly the kind of the type (no reliance on
-   GraphQL literal coercion) and an enum value is not a Python keyword *)
+   GraphQL literal coercion); for an enum value the member name must lead back to it (false only for an enum
+   holding both a keyword and that keyword followed by "_", which Python's Enum rejects anyway) *)
 Definition leaf_good (s : schema) (nm : string) (lit : cvalue) : bool :=
   match kind_of s nm, lit with
   | KInt, CInt z => int32 z
   | KFloat, CInt _ | KFloat, CFloat _ | KString, CStr _ | KBoolean, CBool _ | KID, CStr _ => true
   | KEnum vals, CEnum v =>
-      mem v vals && negb (iskeyword (s2l v)) && no_dot nm && negb (nm =? "")
-      && match find_member v vals with Some v' => v' =? v | None => false end
+      mem v vals && no_dot nm && negb (nm =? "")
+      && match find_member (member_name v) vals with Some v' => v' =? v | None => false end
   | KScalar, CInt _ | KScalar, CFloat _ | KScalar, CStr _ | KScalar, CBool _ => true
   | _, _ => false
   end.
@@ -93,6 +94,22 @@ Proof.
 Qed.
 
 (* ---------- names ---------- *)
+Lemma kw_no_trailing_us :
+  forallb (fun k => negb (match rev k with c :: _ => is_us c | [] => false end)) kwlist = true.
+Proof. vm_compute. reflexivity. Qed.
+
+Lemma s2l_app a b : s2l (a ++ b) = (s2l a ++ s2l b)%list.
+Proof. unfold s2l. induction a; simpl; congruence. Qed.
+
+(* the member name an enum default refers to is never a Python keyword *)
+Lemma member_name_not_kw v : iskeyword (s2l (member_name v)) = false.
+Proof.
+  unfold member_name. destruct (iskeyword (s2l v)) eqn:K; [|exact K].
+  apply not_true_iff_false. intro H. unfold iskeyword in H. apply mem_chars_In in H.
+  pose proof kw_no_trailing_us as F. rewrite forallb_forall in F. specialize (F _ H).
+  rewrite s2l_app in F. simpl in F. rewrite rev_app_distr in F. simpl in F. discriminate.
+Qed.
+
 Lemma split_dot_app a b : no_dot a = true -> split_dot (a ++ String "."%char b) = Some (a, b).
 Proof.
   unfold no_dot. induction a as [|c r IH]; simpl; [reflexivity|].
@@ -168,11 +185,12 @@ Proof.
     destruct (kind_of s nm) as [| | | | | |vals|fs|] eqn:K; try discriminate.
     repeat (apply andb_true_iff in G as [G ?]). rewrite G in C. inversion C; subst cv.
     simpl const_value_node. rewrite eval_name_eq. unfold ftn. rewrite (ftn_enum s cs nm vals K).
-    unfold eval_name. change (nm ++ "." ++ v) with (nm ++ String "."%char v). rewrite split_dot_app by assumption.
+    unfold eval_name. change (nm ++ "." ++ member_name v) with (nm ++ String "."%char (member_name v)).
+    rewrite split_dot_app by assumption.
     match goal with H : negb (nm =? "") = true |- _ => apply negb_true_iff in H; rewrite H end.
-    match goal with H : negb (iskeyword _) = true |- _ => apply negb_true_iff in H; rewrite H end.
+    rewrite member_name_not_kw.
     simpl. unfold E. simpl e_enums. rewrite (enums_lookup s nm vals KL).
-    destruct (find_member v vals) as [v'|]; [|discriminate].
+    destruct (find_member (member_name v) vals) as [v'|]; [|discriminate].
     match goal with H : (v' =? v) = true |- _ => apply String.eqb_eq in H; subst v' end.
     eexists. split; reflexivity.
   - simpl in G. discriminate.
